@@ -181,7 +181,7 @@ def main(argv=None):
             ev["fid"] = fid
         keep = res["verdict"] not in (HELD,)
         key = (res["verdict"],) + tuple(sorted(res["tags"]))[:4]
-        huge = isinstance(case, dict) and isinstance(case.get("lens"), list) and len(case["lens"]) > 2000
+        huge = isinstance(case, dict) and any(isinstance(case.get(k_), list) and len(case[k_]) > 2000 for k_ in ("lens", "vals", "samples", "keys"))
         if not keep and kept.get(key, 0) < 2 and len(kept) < 400 and not huge:
             keep = True
         if keep:
